@@ -1,9 +1,11 @@
 package main
 
-// Engine treetext (property C19, the text-inside-one-element fragment): the
-// real crdt.Tree on several replicas holding <r><p>…</p></r>, edited inside
-// the paragraph only (insert a run of characters, delete or replace a range
-// of characters; no element is inserted, split or merged).  Local edits go
+// Engine treetext (property C19, the one-level fragments): the real crdt.Tree
+// on several replicas holding <r><p>…</p></r>, edited inside the paragraph
+// only (insert a run of characters, delete or replace a range of characters;
+// no element is inserted, split or merged) - and, every third case, <r>…</r>
+// whose children are empty elements (insert a run of elements, delete or
+// replace a range of whole elements).  Local edits go
 // through FindPos + Edit, the others' edits are delivered in a causal order
 // with the author's version vector.  After every execution the paragraph's
 // complete child list (text pieces with ids, characters, removedAt) is
@@ -36,8 +38,15 @@ type ttOp struct {
 	author   int
 	from, to *crdt.TreePos
 	content  string
-	ctk, tk  *time.Ticket // ticket of the inserted text node, ticket of the edit
+	ctks     []*time.Ticket // tickets of the inserted nodes (one text node, or one per element)
+	tk       *time.Ticket   // ticket of the edit
 	vv       time.VersionVector
+}
+
+// ttName is what a node ticket is rendered as: the edit's ticket and the node's place in the edit.
+type ttName struct {
+	tk  *time.Ticket
+	off int
 }
 
 type ttReplica struct {
@@ -53,8 +62,13 @@ var (
 	ttParaTk = time.NewTicket(0, 2, time.InitialActorID)
 )
 
-func newTTReplica(n int) *ttReplica {
+// newTTReplica: <r><p></p></r> with p as the edited parent, or (elems) <r></r> with the root as the
+// edited parent whose children are empty elements.
+func newTTReplica(n int, elems bool) *ttReplica {
 	root := crdt.NewTreeNode(crdt.NewTreeNodeID(ttRootTk, 0), "r", nil)
+	if elems {
+		return &ttReplica{tree: crdt.NewTree(root, time.InitialTicket), p: root, vv: time.NewVersionVector(), delivered: make([]int, n)}
+	}
 	p := crdt.NewTreeNode(crdt.NewTreeNodeID(ttParaTk, 0), "p", nil)
 	if err := root.Append(p); err != nil {
 		panic(err)
@@ -62,17 +76,25 @@ func newTTReplica(n int) *ttReplica {
 	return &ttReplica{tree: crdt.NewTree(root, time.InitialTicket), p: p, vv: time.NewVersionVector(), delivered: make([]int, n)}
 }
 
-// ttChars expands the paragraph's children (tombstones included) into characters.
-func ttChars(rp *ttReplica, rename map[string]*time.Ticket) ([]string, bool) {
+// ttChars expands the parent's children (tombstones included) into characters: a text piece
+// into its characters, an empty element into one character (its type letter).
+func ttChars(rp *ttReplica, rename map[string]ttName, elems bool) ([]string, bool) {
 	var out []string
 	for _, ch := range rp.p.Index.Children(true) {
 		nd := ch.Value
-		if !nd.IsText() {
+		if nd.IsText() == elems {
 			return nil, false
 		}
-		tk := nd.ID().CreatedAt
+		tk, base := nd.ID().CreatedAt, 0
 		if r, ok := rename[tk.Key()]; ok {
-			tk = r
+			tk, base = r.tk, r.off
+		}
+		if elems {
+			if len(nd.Index.Children(true)) != 0 {
+				return nil, false
+			}
+			out = append(out, coqfmt.App("mkCh", ticketCoq(tk), coqfmt.N(uint64(base)), coqfmt.N(uint64(nd.Type()[0])), optTk(nd.RemovedAt())))
+			continue
 		}
 		v := nd.Value
 		for i := 0; i < len(v); i++ {
@@ -80,6 +102,20 @@ func ttChars(rp *ttReplica, rename map[string]*time.Ticket) ([]string, bool) {
 		}
 	}
 	return out, true
+}
+
+// ttLive is the number of visible characters (elements) under the parent.
+func ttLive(rp *ttReplica, elems bool) int {
+	if !elems {
+		return len(ttText(rp))
+	}
+	n := 0
+	for _, ch := range rp.p.Index.Children(true) {
+		if !ch.Value.IsRemoved() {
+			n++
+		}
+	}
+	return n
 }
 
 func ttText(rp *ttReplica) string {
@@ -92,35 +128,39 @@ func ttText(rp *ttReplica) string {
 	return s
 }
 
-// ttPos renders a TreePos inside the paragraph: the head, or "after character (ticket, k)".
-func ttPos(pos *crdt.TreePos, rename map[string]*time.Ticket) (string, bool) {
-	if pos.ParentID.CreatedAt.Compare(ttParaTk) != 0 {
+// ttPos renders a TreePos under the edited parent: the head, or "after character (ticket, k)".
+// For an element sibling the offset FindPos writes (the child index) carries no information.
+func ttPos(rp *ttReplica, pos *crdt.TreePos, rename map[string]ttName, elems bool) (string, bool) {
+	if pos.ParentID.CreatedAt.Compare(rp.p.ID().CreatedAt) != 0 {
 		return "", false
 	}
 	l := pos.LeftSiblingID
-	if l.CreatedAt.Compare(ttParaTk) == 0 {
+	if l.CreatedAt.Compare(rp.p.ID().CreatedAt) == 0 {
 		return "PHead", true
+	}
+	tk, base := l.CreatedAt, 0
+	if r, ok := rename[tk.Key()]; ok {
+		tk, base = r.tk, r.off
+	}
+	if elems {
+		return coqfmt.App("PAfter", ticketCoq(tk), coqfmt.N(uint64(base))), true
 	}
 	if l.Offset == 0 {
 		return "", false
 	}
-	tk := l.CreatedAt
-	if r, ok := rename[tk.Key()]; ok {
-		tk = r
-	}
 	return coqfmt.App("PAfter", ticketCoq(tk), coqfmt.N(uint64(l.Offset-1))), true
 }
 
-func treeTextCase(r *rng.R, res *Result) (string, bool, []Violation) {
+func treeTextCase(r *rng.R, res *Result, elems bool) (string, bool, []Violation) {
 	var viol []Violation
 	nrep := r.Range(2, 3)
 	reps := make([]*ttReplica, nrep)
 	for i := range reps {
-		reps[i] = newTTReplica(nrep)
+		reps[i] = newTTReplica(nrep, elems)
 	}
 	actor := func(i int) time.ActorID { return actorOf(uint64(i + 1)) }
 	byAuthor := make([][]*ttOp, nrep)
-	rename := map[string]*time.Ticket{}
+	rename := map[string]ttName{}
 	var steps []string
 	nontriv := false
 	concurrent := 0
@@ -133,15 +173,20 @@ func treeTextCase(r *rng.R, res *Result) (string, bool, []Violation) {
 			vv = op.vv
 		}
 		var contents []*crdt.TreeNode
-		if op.content != "" {
-			contents = []*crdt.TreeNode{crdt.NewTreeNode(crdt.NewTreeNodeID(op.ctk, 0), "text", nil, op.content)}
+		if op.content != "" && !elems {
+			contents = []*crdt.TreeNode{crdt.NewTreeNode(crdt.NewTreeNodeID(op.ctks[0], 0), "text", nil, op.content)}
 		}
-		d := int64(2)
+		if elems {
+			for k := range op.content {
+				contents = append(contents, crdt.NewTreeNode(crdt.NewTreeNodeID(op.ctks[k], 0), string(op.content[k]), nil))
+			}
+		}
+		d := int64(len(op.ctks) + 2)
 		issue := func() *time.Ticket { d++; return time.NewTicket(op.tk.Lamport(), uint32(d), op.tk.ActorID()) }
 		_, _, _, err := rp.tree.Edit(op.from, op.to, contents, 0, op.tk, issue, vv, local)
-		pf, ok1 := ttPos(op.from, rename)
-		pt, ok2 := ttPos(op.to, rename)
-		chars, ok3 := ttChars(rp, rename)
+		pf, ok1 := ttPos(rp, op.from, rename, elems)
+		pt, ok2 := ttPos(rp, op.to, rename, elems)
+		chars, ok3 := ttChars(rp, rename, elems)
 		if !ok1 || !ok2 || !ok3 {
 			unsupported = true
 			res.count("skipped.position-or-content-outside-the-fragment")
@@ -212,7 +257,7 @@ func treeTextCase(r *rng.R, res *Result) (string, bool, []Violation) {
 			}
 		}
 		rp := reps[i]
-		ln := len(ttText(rp))
+		ln := ttLive(rp, elems)
 		from := r.Intn(ln + 1)
 		to := from
 		if ln > from && r.Chance(1, 2) {
@@ -224,18 +269,31 @@ func treeTextCase(r *rng.R, res *Result) (string, bool, []Violation) {
 				content += string(rune('a' + r.Intn(26)))
 			}
 		}
-		// tree indexes: 0 is in front of <p>, 1 is the start of the paragraph
-		fp, err1 := rp.tree.FindPos(1 + from)
-		tp, err2 := rp.tree.FindPos(1 + to)
+		// tree indexes: 0 is in front of <p>, 1 is the start of the paragraph; an empty element
+		// under the root takes two index positions
+		fi, ti := 1+from, 1+to
+		if elems {
+			fi, ti = 2*from, 2*to
+		}
+		fp, err1 := rp.tree.FindPos(fi)
+		tp, err2 := rp.tree.FindPos(ti)
 		if err1 != nil || err2 != nil {
 			continue
 		}
 		rp.lamport++
-		ctk := time.NewTicket(rp.lamport, 1, actor(i))
-		tk := time.NewTicket(rp.lamport, 2, actor(i))
-		rename[ctk.Key()] = tk
+		nnodes := 1
+		if elems {
+			nnodes = len(content)
+		}
+		var ctks []*time.Ticket
+		tk := time.NewTicket(rp.lamport, uint32(nnodes+1), actor(i))
+		for k := 0; k < nnodes; k++ {
+			ctk := time.NewTicket(rp.lamport, uint32(k+1), actor(i))
+			ctks = append(ctks, ctk)
+			rename[ctk.Key()] = ttName{tk, k}
+		}
 		rp.vv.Set(actor(i), rp.lamport)
-		op := &ttOp{author: i, from: fp, to: tp, content: content, ctk: ctk, tk: tk, vv: rp.vv.DeepCopy()}
+		op := &ttOp{author: i, from: fp, to: tp, content: content, ctks: ctks, tk: tk, vv: rp.vv.DeepCopy()}
 		byAuthor[i] = append(byAuthor[i], op)
 		exec(i, op, true, from, to)
 		rp.delivered[i]++
@@ -276,7 +334,13 @@ func runTreeText(cfg *config) error {
 	var cases []string
 	seen := distinct{}
 	for i := 0; i < cfg.n; i++ {
-		c, nontriv, viol := treeTextCase(r.Fork(), res)
+		elems := i%3 == 2
+		if elems {
+			res.count("case.element-siblings")
+		} else {
+			res.count("case.text-in-one-element")
+		}
+		c, nontriv, viol := treeTextCase(r.Fork(), res, elems)
 		cases = append(cases, c)
 		if len(viol) > 0 && len(res.Violations) < 5 {
 			v := viol[0]
@@ -293,7 +357,7 @@ func runTreeText(cfg *config) error {
 	}
 	res.Evaluations = len(cases)
 	res.Nontrivial = len(seen)
-	res.Rule = "2-3 replicas of the real crdt.Tree holding <r><p>text</p></r>; random local edits inside the paragraph (insert 1-3 characters, delete or replace 1-4) through FindPos+Edit, random causal delivery of the others' edits with the author's version vector, then quiescence; after every execution the paragraph's complete child list (ids, characters, removedAt) is compared with the model; non-trivial = some edit was executed on a replica that held edits its author had not seen; distinct = distinct rendered case"
+	res.Rule = "2-3 replicas of the real crdt.Tree holding <r><p>text</p></r> (two thirds; random local edits inside the paragraph: insert 1-3 characters, delete or replace 1-4) or <r>empty elements</r> (one third; insert 1-3 elements, delete or replace 1-4 whole elements) through FindPos+Edit, random causal delivery of the others' edits with the author's version vector, then quiescence; after every execution the paragraph's complete child list (ids, characters, removedAt) is compared with the model; non-trivial = some edit was executed on a replica that held edits its author had not seen; distinct = distinct rendered case"
 	f := filepath.Join(cfg.out, "cases_treetext.v")
 	src := coqfmt.File([]string{"From YV Require Import Corr.TreeText."}, "treetextcase", "mismatches treetextcheck", cases)
 	if err := os.WriteFile(f, []byte(src), 0o644); err != nil {
